@@ -116,6 +116,19 @@ func c16Has(a *An, opHas, evHas *ssa.Function) {
 	a.R.ob("C16.1", "Event.Has", "Event.Has agrees with Op.Has on the event's operation set", a.P.pos(evHas.Pos()), ok2, wit2)
 }
 
+// opTokenName: the text under which an Op constant is printed.
+func opTokenName(constName string) string {
+	n := strings.TrimPrefix(constName, "xUnportable")
+	var b strings.Builder
+	for i, r := range n {
+		if i > 0 && r >= 'A' && r <= 'Z' {
+			b.WriteByte('_')
+		}
+		b.WriteRune(r)
+	}
+	return strings.ToUpper(b.String())
+}
+
 func c16OpString(a *An, opStr *ssa.Function) {
 	w := a.E.Walk(opStr, WalkOpts{})
 	a.R.Sites += len(w.Visits)
@@ -367,7 +380,16 @@ func c16OpString(a *An, opStr *ssa.Function) {
 			shape = append(shape, sprintf("token %q is used %d times", r.token, seenTok[r.token]))
 		}
 	}
-	a.R.ob("C16.2", "Op.String:tokens", "tokens are non-empty, pairwise distinct, start with '|' and contain it nowhere else (so the joined text is unambiguous)", a.P.pos(opStr.Pos()), len(shape) == 0 && len(rows) > 0, strings.Join(uniq(shape), "; "))
+	// each token names the constant it is printed for: the constant's identifier in upper case, words separated by '_',
+	// without the internal xUnportable prefix (Create -> CREATE, xUnportableCloseWrite -> CLOSE_WRITE)
+	for _, r := range rows {
+		if cn, ok := defined[r.bit]; ok && len(r.token) > 1 {
+			if want := opTokenName(cn); r.token[1:] != want {
+				shape = append(shape, sprintf("%s is rendered as %q, not %q", cn, r.token[1:], want))
+			}
+		}
+	}
+	a.R.ob("C16.2", "Op.String:tokens", "tokens are non-empty, pairwise distinct, start with '|' and contain it nowhere else (so the joined text is unambiguous), and each is the name of its constant", a.P.pos(opStr.Pos()), len(shape) == 0 && len(rows) > 0, strings.Join(uniq(shape), "; "))
 	// returns: the empty literal under Len()==0, else b.String()[1:]
 	okEmpty, okStrip := false, false
 	var rw []string
@@ -528,6 +550,14 @@ func c16EventString(a *An, evStr, opStr *ssa.Function) {
 			ws = append(ws, sprintf("%s: format %q has %d verbs for %d operands", pos, format, len(vs), len(args)))
 			continue
 		}
+		// within one call the new name comes before the old one ("name ← old name"), and the operation text first
+		rank := -1
+		order := func(r int, what string) {
+			if r < rank {
+				ws = append(ws, pos+": "+what+" is printed out of order (operation text, name, old name)")
+			}
+			rank = r
+		}
 		for i, arg := range args {
 			if arg == nil {
 				ws = append(ws, pos+": operand not found")
@@ -537,11 +567,13 @@ func c16EventString(a *An, evStr, opStr *ssa.Function) {
 			verb := vs[i][len(vs[i])-1]
 			switch {
 			case p == "recv.Name":
+				order(1, "the name")
 				nameD = nameD.or(v.Cond)
 				if verb != 'q' {
 					ws = append(ws, sprintf("%s: the name is rendered with %s instead of %%q", pos, vs[i]))
 				}
 			case p == "recv.renamedFrom":
+				order(2, "the old name")
 				oldD = oldD.or(v.Cond)
 				if verb != 'q' {
 					ws = append(ws, sprintf("%s: the old name is rendered with %s instead of %%q", pos, vs[i]))
@@ -549,6 +581,7 @@ func c16EventString(a *An, evStr, opStr *ssa.Function) {
 			default:
 				rv, _ := v.Ctx.resolve(arg)
 				if c2, isCall := rv.(*ssa.Call); isCall && c2.Call.StaticCallee() == opStr && stripIDs(v.Ctx.path(c2.Call.Args[0])) == "recv.Op" {
+					order(0, "the operation text")
 					opD = opD.or(v.Cond)
 					if verb != 's' && verb != 'v' {
 						ws = append(ws, sprintf("%s: the operation text is rendered with %s", pos, vs[i]))
